@@ -175,6 +175,13 @@ def re_equiv(a, b):
     return all((re.fullmatch(pa, x) is None) == (re.fullmatch(pb, x) is None) for x in sample)
 
 
+def int_value(s, base=10):
+    import sys
+    if hasattr(sys, "set_int_max_str_digits"):
+        sys.set_int_max_str_digits(0)
+    return int(s, base)
+
+
 def code(c):
     return ord(c)
 
